@@ -150,7 +150,7 @@ type c06Stream struct{}
 func (c06Stream) Name() string               { return "c06" }
 func (c06Stream) CaseTimeout() time.Duration { return 60 * time.Second }
 func (c06Stream) Rule() string {
-	return "K simultaneous connections (1..8; plain / TLS / StartTLS), each pipelining N requests (1..256) of a random mix of the six dispatched operations in one write, routed by per-operation routes, all by the default route, or by nothing at all (a server whose Router was never called: every request must be refused with its operation's response type); also: a server with a read timeout, a handler that outlives it and requests sent afterwards (whatever is served carries its arrival number); a route registered on the live mux while a handler blocks (requests sent afterwards must still be dispatched); every handler blocks until ALL handlers of ALL connections have started (rendezvous), so the scenario only completes if no dispatch waits for an earlier handler; oracle: the rendezvous completes, and on every connection Request.ID is 1..N in arrival (message id) order and ConnectionID is constant; the hook trace of every connection is replayed through the Lean connection automaton; non-trivial = N >= 2, distinct by scenario"
+	return "K simultaneous connections (1..8; plain / TLS / StartTLS), each pipelining N requests (1..256) of a random mix of the six dispatched operations in one write, routed by per-operation routes, all by the default route, or by nothing at all (a server whose Router was never called: every request must be refused with its operation's response type); also: a server with a read timeout, a handler that outlives it and requests sent afterwards (whatever is served carries its arrival number); a route registered on the live mux while a handler blocks (requests sent afterwards must still be dispatched); a handler stuck inside Write because its client does not read a large result yet (the requests behind it must still reach their handlers); every handler blocks until ALL handlers of ALL connections have started (rendezvous), so the scenario only completes if no dispatch waits for an earlier handler; oracle: the rendezvous completes, and on every connection Request.ID is 1..N in arrival (message id) order and ConnectionID is constant; the hook trace of every connection is replayed through the Lean connection automaton; non-trivial = N >= 2, distinct by scenario"
 }
 
 func (c06Stream) Generate(rng *rand.Rand, n int, thorough bool) []Case {
@@ -173,6 +173,11 @@ func (c06Stream) Generate(rng *rand.Rand, n int, thorough bool) []Case {
 			// a route is registered while a handler is blocked; requests sent afterwards must still be dispatched
 			cs = append(cs, Case{Line: fmt.Sprintf("c06 conns=2 n=2 mode=plain seed=%d routes=all latereg=1", rng.Intn(1<<30)), Kind: "latereg"})
 			continue
+		case 2:
+			// a handler is stuck INSIDE Write (its client is not reading a large result yet); the requests behind it
+			// must still reach their handlers
+			cs = append(cs, Case{Line: fmt.Sprintf("c06 conns=1 n=%d mode=%s seed=%d routes=all stalled=1", 2+rng.Intn(4), []string{"plain", "tls"}[rng.Intn(2)], rng.Intn(1<<30)), Kind: "stalled"})
+			continue
 		}
 		cs = append(cs, Case{Line: fmt.Sprintf("c06 conns=%d n=%d mode=%s seed=%d routes=%s", k, np, []string{"plain", "plain", "tls", "starttls"}[rng.Intn(4)], rng.Intn(1<<30),
 			[]string{"all", "all", "default", "none"}[rng.Intn(4)]), Kind: "pipeline"})
@@ -190,6 +195,9 @@ func (c06Stream) Impl(c Case) string {
 	}
 	if p["latereg"] == "1" {
 		return c06LateRegistration()
+	}
+	if p["stalled"] == "1" {
+		return c06Stalled(n, mode)
 	}
 	rc := &recorder{}
 	var all sync.WaitGroup
@@ -333,6 +341,81 @@ func c06ReadTimeout(rt int) string {
 		}
 	}
 	rc.mu.Unlock()
+	cl.close()
+	sut.finish()
+	return verdict + "\t" + traceString(sut.tr.Snapshot(), "conn.", "loop.", "req.", "run.", "stop.")
+}
+
+// c06Stalled: the first request's handler writes far more than the socket buffers hold to a client that is not reading
+// yet, so it blocks inside Write; n further requests, sent one after the other, must each reach their handler while it
+// is still stuck. Then the client reads everything.
+func c06Stalled(n int, mode string) string {
+	rc := &recorder{}
+	payload := strings.Repeat("s", 50000)
+	var entered int32
+	h := func(w *gldap.ResponseWriter, r *gldap.Request) {
+		rc.enter(r)
+		if r.VerifMessage().GetID() == 1000 {
+			for i := 0; i < 300; i++ {
+				if err := w.Write(r.NewSearchResponseEntry("e", gldap.WithAttributes(map[string][]string{"p": {payload}}))); err != nil {
+					return
+				}
+			}
+		} else {
+			atomic.AddInt32(&entered, 1)
+		}
+		answer(w, r)
+	}
+	sut, err := startServer(allRoutes(h, nil, nil), serverTLSFor(mode), nil)
+	if err != nil {
+		return "harness-error start: " + err.Error()
+	}
+	defer sut.tr.ReleaseAll()
+	cl, err := connect(sut.addr, mode)
+	if err != nil {
+		return "harness-error connect: " + err.Error()
+	}
+	defer cl.close()
+	verdict := "ok"
+	_ = cl.send(opFrame("search", 1000))
+	time.Sleep(150 * time.Millisecond) // the handler has filled the socket and sits in Write
+	for j := 1; j <= n && verdict == "ok"; j++ {
+		_ = cl.send(opFrame(opKinds[j%len(opKinds)], int64(1000+j)))
+		ok := false
+		for i := 0; i < 3000; i++ {
+			if int(atomic.LoadInt32(&entered)) >= j {
+				ok = true
+				break
+			}
+			time.Sleep(time.Millisecond)
+		}
+		if !ok {
+			verdict = fmt.Sprintf("request %d behind a handler that is stuck in Write was not dispatched within 3 s", j+1)
+		}
+	}
+	// now the client reads: the entries, the done, and the answers of the others
+	seen := map[int64]bool{}
+	for verdict == "ok" && len(seen) < n+1 {
+		f, err := cl.readFrame(10 * time.Second)
+		if err != nil {
+			verdict = "responses missing after the client started to read: " + err.Error()
+			break
+		}
+		var id int64
+		if v := strictView(f); strings.HasPrefix(v, "result ") {
+			fmt.Sscanf(v, "result id=%d", &id)
+			seen[id] = true
+		}
+	}
+	if verdict == "ok" {
+		rc.mu.Lock()
+		for _, e := range rc.entries {
+			if e.reqID != int(e.msgID-1000)+1 {
+				verdict = fmt.Sprintf("request with message id %d has Request.ID %d", e.msgID, e.reqID)
+			}
+		}
+		rc.mu.Unlock()
+	}
 	cl.close()
 	sut.finish()
 	return verdict + "\t" + traceString(sut.tr.Snapshot(), "conn.", "loop.", "req.", "run.", "stop.")
